@@ -169,6 +169,12 @@ def run(cx):
     from props.shared import leave_implies_terminal, dispatch_table
     dispatch_table(cx, "C09.e", only={"DisconnectFrame", "DisconnectAckFrame"})
     leave_implies_terminal(cx, "C09.f")
+    # "flushed" is read off the three queues: a resend entry dropped without being re-queued, or a fragment
+    # wrongly read as acknowledged, empties them with reliable data undelivered
+    from props.C02 import inst_resend_pairing
+    inst_resend_pairing(cx, "C09.g")
+    from props.C04 import inst_fragment_flags
+    inst_fragment_flags(cx, "C09.h")
 
 
 SELFTEST = [
